@@ -35,8 +35,8 @@ HARNESSES = {
     'k_lang_frag': {'kind': 'complete', 'domain': 'all 26^3 lower-case three-letter codes + "und" (fragmented mdhd packer)', 'timeout': 300, 'tier': 'quick'},
     'k_send_sync': {'kind': 'complete', 'domain': 'all W: Write + Send / Sync (rustc trait solver)', 'timeout': 300, 'tier': 'quick'},
     'k_aliases': {'kind': 'complete', 'domain': 'all arguments of the builder alias pairs', 'timeout': 300, 'tier': 'quick'},
-    'k_api_ticks_video': {'kind': 'complete', 'domain': 'all f64 bit patterns for pts and dts of the first frame, real Muxer::write_video_with_dts (VP9 keyframe)', 'timeout': 1800, 'tier': 'thorough'},
-    'k_api_ticks_second_frame': {'kind': 'complete', 'domain': 'all f64 bit patterns for the second frame time, real Muxer::write_video', 'timeout': 1800, 'tier': 'thorough'},
+    'k_api_ticks_video': {'kind': 'complete', 'domain': 'all f64 bit patterns for pts and dts of the first frame, real Muxer::write_video_with_dts (VP9 keyframe)', 'timeout': 1800, 'tier': 'quick'},
+    'k_api_ticks_second_frame': {'kind': 'complete', 'domain': 'all f64 bit patterns for the second frame time, real Muxer::write_video', 'timeout': 1800, 'tier': 'quick'},
     'k_ticks_nearest': {'kind': 'complete', 'domain': 'all finite f64 seconds x >= 0 with x*90000 < 2^53', 'timeout': 900, 'tier': 'thorough'},
     'kb_ticks_monotone': {'kind': 'bounded', 'domain': 'seconds i/1024 for i < 2^30', 'timeout': 900, 'tier': 'thorough'},
     'kb_stats_secs': {'kind': 'bounded', 'domain': 'tick counts below 2^32', 'timeout': 900, 'tier': 'thorough'},
@@ -50,6 +50,9 @@ HARNESSES = {
     'kb_schedule_2v1a': {'kind': 'bounded', 'domain': '2 video + 1 audio samples', 'timeout': 600, 'tier': 'quick'},
     'kb_schedule_1v2a': {'kind': 'bounded', 'domain': '1 video + 2 audio samples', 'timeout': 600, 'tier': 'quick'},
     'kb_schedule_2v2a': {'kind': 'bounded', 'domain': '2 video + 2 audio samples', 'timeout': 1800, 'tier': 'thorough'},
+    'kb_days_to_ymd': {'kind': 'bounded', 'domain': 'day numbers 0..36524 (1970-01-01 .. 2069-12-31)', 'timeout': 900, 'tier': 'quick'},
+    'kb_frag_history': {'kind': 'bounded', 'domain': '3 writes (all u64 pts/dts, 1-byte payload) with an optional flush after each', 'timeout': 1200, 'tier': 'quick'},
+    'kb_frag_api': {'kind': 'bounded', 'domain': '3 writes (all u64 dts, 1-byte payload) with an optional flush after each, public API only, segment header fields read back', 'timeout': 1800, 'tier': 'quick'},
     'kb_is_keyframe_h264': {'kind': 'bounded', 'domain': 'frames of 1..6 symbolic bytes, H.264 probe vs independent IDR scan', 'timeout': 900, 'tier': 'quick'},
     'kb_is_keyframe_h265': {'kind': 'bounded', 'domain': 'frames of 1..6 symbolic bytes, H.265 probe (panic freedom)', 'timeout': 900, 'tier': 'quick'},
     'kb_is_keyframe_av1_vp9': {'kind': 'bounded', 'domain': 'frames of 1..6 symbolic bytes, AV1 / VP9 probes (panic freedom)', 'timeout': 900, 'tier': 'quick'},
